@@ -73,7 +73,18 @@ def arith_ci_paths(m, suffix='', conf=None):
             k = E.pc_kind(r.pc)
             t = bool(any(apps_in(b, 'Tq') for b in bounds))
             by[(k, t)] = (r.pc, variant, bounds)
+            ALL_PATHS.setdefault(id(m), {}).setdefault(suffix, {}).setdefault((k, t), []).append((r.pc, variant, bounds))
     return by, res
+
+
+ALL_PATHS = {}
+
+
+def arith_ci_all_paths(m, suffix=''):
+    """{(kind, uses_t): [(pc, variant, bounds), ...]} - every Ok path (a change may split one path into several)"""
+    if id(m) not in ALL_PATHS or suffix not in ALL_PATHS[id(m)]:
+        arith_ci_paths(m, suffix)
+    return ALL_PATHS[id(m)].get(suffix, {})
 
 
 def abs_c(t, C=None):
@@ -90,3 +101,17 @@ def nokind(pc, var='kind'):
     """drop the discriminant atoms of the symbolic confidence (needed when paths of different kinds are combined)"""
     kv = T.var(var, 'i')
     return [c for c in pc if not T.contains(c, lambda t: t == kv)]
+
+
+def oracle_guard(ctx, m, prefix, pc, bounds, names=('Tq', 'Zq')):
+    """Every returned finite bound must obtain its critical value from the statrs oracle in THIS call. A path whose bounds
+    carry no oracle application took the critical value from somewhere else (a cache, a constant): reported, and confirmed
+    natively by the history battery (same call after different earlier calls)."""
+    has = any(apps_in(b, n) for b in bounds for n in names)
+    if has:
+        return True
+    from vlib import native
+    m.violated_structurally(prefix + ':critical-value-not-from-the-oracle', prefix + ':critical-value-source',
+                            'an Ok path returns bounds whose critical value is not an application of the quantile function in this call (free symbols: %s)' % sorted(set(v for b in bounds for v in T.free_vars(b)))[:6],
+                            replay=lambda model, p: native.confirm_history(ctx, prefix))
+    return False
